@@ -7,8 +7,13 @@ part of `load` of `src/loader.rs` that matters here.
 `tokenize_core` is `A2l.Lex.tokenize` (Model/Lex.lean).  The model mirrors the Rust code: the vector
 `include_directives` of positions, the initial slice `input_tokens[0..include_directives[0]]`, the pushed sentinel
 `input_tokens.len()`, the loop `for idx in 1..include_directives.len()` and its index arithmetic.  Every slice,
-index and `usize` subtraction has an explicit `panic` outcome.  The recursion runs on fuel: `fuel = 0 → .hang`
-(a file that includes itself makes the Rust code recurse until the stack overflows).
+index and `usize` subtraction has an explicit `panic` outcome.  `tokenize(filename, fileid, filetext)` is
+`tokenize_nested(.., depth = 0)`; the first argument of the model's `tokenize` is the *remaining depth*
+`MAX_INCLUDE_DEPTH - depth` (the entry point is `tokenize fs maxIncludeDepth`).  The recursion is structural in it:
+at remaining depth `0` (`depth = MAX_INCLUDE_DEPTH`) no file is loaded and a directive with a usable name is the
+`IncludeFileError` of a file that cannot be loaded, so a file that includes itself ends with that error.
+The constructor `R.hang` is kept for one purpose only: the lexer model `Lex.tokenize` has a `hang` outcome (its
+loop runs on fuel; `Lex.lex_no_hang` shows that it does not occur) and `tokenize` passes it on.
 
 Abstractions (stated, not hidden):
 * the file system is a map from paths to optional contents; a path *exists* iff the map is defined on it
@@ -112,7 +117,8 @@ inductive Err where
   | IncompleteIncludeError (filename : Path) (line : Nat)
   deriving DecidableEq, Repr, Inhabited
 
-/-- outcome: a value, a `TokenizerError`, a panic, or non-termination -/
+/-- outcome: a value, a `TokenizerError`, a panic, or `hang` (only handed on from the lexer model, where it does not
+    occur: `Lex.lex_no_hang`; the include recursion itself cannot produce it) -/
 inductive R (α : Type) where
   | ok (a : α)
   | err (e : Err)
@@ -121,6 +127,12 @@ inductive R (α : Type) where
   deriving DecidableEq, Repr, Inhabited
 
 abbrev Res := R TokenResult
+
+/-- `MAX_INCLUDE_DEPTH` -/
+def maxIncludeDepth : Nat := 64
+
+/-- the recursive call `tokenize_nested(.., depth + 1)` -/
+abbrev Rec := Filename → Nat → Bytes → Res
 
 /-- the mutable locals of `tokenize` -/
 structure St where
@@ -172,8 +184,9 @@ def incomplete (filename : Filename) (input : List Tok) (p : Nat) : R St :=
   | none => .panic
   | some t => .err (.IncompleteIncludeError filename.display t.line)
 
-/-- the body of `for idx in 1..include_directives.len()`; `rec` is the recursive call of `tokenize` -/
-def directive (rec : Filename → Nat → Bytes → Res) (fs : FS) (filename : Filename) (b : Bytes)
+/-- the body of `for idx in 1..include_directives.len()`; `rec` is the recursive call `tokenize_nested(.., depth + 1)`
+    if `depth < MAX_INCLUDE_DEPTH`, and `none` if `depth = MAX_INCLUDE_DEPTH` -/
+def directive (rec : Option Rec) (fs : FS) (filename : Filename) (b : Bytes)
     (input : List Tok) (dirs : List Nat) (idx : Nat) (st : St) : R St :=
   if idx = 0 then .panic                                    -- `idx - 1`
   else
@@ -188,23 +201,27 @@ def directive (rec : Filename → Nat → Bytes → Res) (fs : FS) (filename : F
           | .panic => .panic
           | .ok incname =>
             let incfilename := makeIncludeFilename fs incname filename.full
-            match load fs incfilename with
-            | some incfiledata =>
-              match rec { full := incfilename, display := incname } st.nextFileid incfiledata with
-              | .ok tokresult =>
-                .ok { nextFileid := st.nextFileid + tokresult.filenames.length
-                      tokens := st.tokens ++ tokresult.tokens ++ rest       -- `append`, then `extend_from_slice(&token_subseq[1..])`
-                      filenames := st.filenames ++ tokresult.filenames
-                      filedatas := st.filedatas ++ tokresult.filedata }
-              | .err e => .err e                            -- `?`
-              | .panic => .panic
-              | .hang => .hang
-            | none => .err (.IncludeFileError filename.display t0.line incname)
+            -- `loadresult = if depth < MAX_INCLUDE_DEPTH { loader::load(incpathref).ok() } else { None }`
+            match rec with
+            | none => .err (.IncludeFileError filename.display t0.line incname)     -- nested too deeply
+            | some rec =>
+              match load fs incfilename with
+              | some incfiledata =>
+                match rec { full := incfilename, display := incname } st.nextFileid incfiledata with
+                | .ok tokresult =>
+                  .ok { nextFileid := st.nextFileid + tokresult.filenames.length
+                        tokens := st.tokens ++ tokresult.tokens ++ rest     -- `append`, then `extend_from_slice(&token_subseq[1..])`
+                        filenames := st.filenames ++ tokresult.filenames
+                        filedatas := st.filedatas ++ tokresult.filedata }
+                | .err e => .err e                          -- `?`
+                | .panic => .panic
+                | .hang => .hang
+              | none => .err (.IncludeFileError filename.display t0.line incname)
         else incomplete filename input p
     | _, _ => .panic                                        -- `include_directives[idx - 1]`, `include_directives[idx]`
 
 /-- `for idx in 1..include_directives.len()`: `n` iterations are left, the next one is `idx` -/
-def loop (rec : Filename → Nat → Bytes → Res) (fs : FS) (filename : Filename) (b : Bytes)
+def loop (rec : Option Rec) (fs : FS) (filename : Filename) (b : Bytes)
     (input : List Tok) (dirs : List Nat) : Nat → Nat → St → R St
   | 0, _, st => .ok st
   | n + 1, idx, st =>
@@ -214,8 +231,8 @@ def loop (rec : Filename → Nat → Bytes → Res) (fs : FS) (filename : Filena
     | .panic => .panic
     | .hang => .hang
 
-/-- everything after `tokenize_core`; `rec` is the recursive call of `tokenize` -/
-def splice (rec : Filename → Nat → Bytes → Res) (fs : FS) (filename : Filename) (fileid : Nat) (b : Bytes)
+/-- everything after `tokenize_core`; `rec` as in `directive` -/
+def splice (rec : Option Rec) (fs : FS) (filename : Filename) (fileid : Nat) (b : Bytes)
     (input : List Tok) : Res :=
   let dirs := includeDirectives input 0
   if dirs.isEmpty then .ok { tokens := input, filedata := [b], filenames := [filename] }
@@ -234,15 +251,23 @@ def splice (rec : Filename → Nat → Bytes → Res) (fs : FS) (filename : File
         | .panic => .panic
         | .hang => .hang
 
-/-- `tokenize(filename, fileid, filetext)`; `fuel` bounds the depth of the recursion -/
+/-- the body of `tokenize_nested`; `rec` as in `directive` -/
+def tokenizeWith (rec : Option Rec) (fs : FS) (filename : Filename) (fileid : Nat) (b : Bytes) : Res :=
+  match Lex.tokenize b with
+  | .err k l => .err (.Lex filename.display k l)
+  | .panic => .panic
+  | .hang => .hang                                          -- the lexer model's fuel; does not occur (`Lex.lex_no_hang`)
+  | .ok lt => splice rec fs filename fileid b (lt.map (Tok.ofLex fileid))
+
+/-- `tokenize_nested(filename, fileid, filetext, depth)`; the first argument is `MAX_INCLUDE_DEPTH - depth`, the
+    number of levels that may still be nested below this file (structural recursion) -/
 def tokenize (fs : FS) : Nat → Filename → Nat → Bytes → Res
-  | 0, _, _, _ => .hang
-  | fuel + 1, filename, fileid, b =>
-    match Lex.tokenize b with
-    | .err k l => .err (.Lex filename.display k l)
-    | .panic => .panic
-    | .hang => .hang
-    | .ok lt => splice (tokenize fs fuel) fs filename fileid b (lt.map (Tok.ofLex fileid))
+  | 0, filename, fileid, b => tokenizeWith none fs filename fileid b
+  | n + 1, filename, fileid, b => tokenizeWith (some (tokenize fs n)) fs filename fileid b
+
+/-- `tokenize(filename, fileid, filetext)` = `tokenize_nested(.., 0)` -/
+def tokenizeTop (fs : FS) (filename : Filename) (fileid : Nat) (b : Bytes) : Res :=
+  tokenize fs maxIncludeDepth filename fileid b
 
 /-- the text of a token of a result whose first file has id `fileid` -/
 def tokText (filedata : List Bytes) (fileid : Nat) (t : Tok) : Bytes :=
